@@ -1,4 +1,5 @@
 import CuriesVerif.Lemmas.Longest
+import CuriesVerif.Lemmas.Trie
 
 /-!
 # C01 — URI compression always picks the longest registered URI prefix
@@ -140,4 +141,22 @@ example :
                  c.run ⟨"parse_uri", [[104,49]], false, false⟩, c.run ⟨"compress", [[120]], false, false⟩]
      | .error _ => [])
     = [.pair [79] [49], .pair [71,79] [49], .pair [79] [49], .str [68,58,120]] := by
+  decide
+
+/-- **C01 (the trie itself).** The model above is written against the *contract* of
+`StringTrie.longest_prefix_item` (the longest key that is a prefix of the query).  This theorem
+discharges the contract for the character trie `pytrie` implements (`Model/Trie.lean`: one node per
+character, a value slot, the walk that remembers the last value seen): the trie that received
+every assignment the converter ever made — `StringTrie(reverse_prefix_map)` in the constructor,
+`trie[uri_prefix] = prefix` in `_index` — answers exactly as the contract over the dictionary of
+those assignments says, for every history of assignments and every query. -/
+theorem C01_trie (c : Conv) (u : Str) : (Trie.ofList c.trie.reverse).lpi u = Conv.lpi c.trie u :=
+  Trie.lpi_log c.trie u
+
+/-- Non-vacuity: nested keys, the empty key, an overwritten key; the walk stops at the first
+missing child and reports the last value seen. -/
+example :
+    (let t := Trie.ofList [([104], [97]), ([104, 47, 120], [98]), ([], [101]), ([104], [99])]
+     ([t.lpi [104, 47, 120, 49], t.lpi [104, 47], t.lpi [122]], t.get [104, 47]))
+    = ([some ([104, 47, 120], [98]), some ([104], [99]), some ([], [101])], none) := by
   decide
